@@ -89,6 +89,7 @@ type Exec struct {
 	stack      []string
 	marshals   map[*BObj]*marshalSnap
 	recCount   map[*ssa.Function]int
+	condWaits  int
 }
 
 type goRec struct {
